@@ -210,6 +210,9 @@ theorem select_rt (E : Ext) (showI : Int → Str) : ∀ (q : Q) (c : Str), OKQ E
         have hhead : (trimStart ('{' :: ['\n', ' '] ++ (st ++ '\n' :: '}' :: rest))).head? = some '{' := by
           rw [List.cons_append, trimStart_cons_nonws '{' _ (by decide)]; rfl
         rw [if_pos hhead]
+        have htb : trimStart ('{' :: ['\n', ' '] ++ (st ++ '\n' :: '}' :: rest)) = '{' :: ['\n', ' '] ++ (st ++ '\n' :: '}' :: rest) := by
+          rw [List.cons_append]; exact trimStart_cons_nonws '{' _ (by decide)
+        rw [htb]
         have := subs_rt E showI (q :: r) st (by simp) hsubs hst rest f' '{' ['\n', ' '] [] hr (Or.inl rfl) (by decide) (by omega)
         rw [this]
         simp
